@@ -35,6 +35,8 @@ def key_of(o, clause):
     k = o["k"]
     if k.startswith("a64"):
         return f"{k}:{o['op']}:{clause}:{o['form']}"
+    if k == "oparr":
+        return f"oparr:{o['op']}:{clause}:n{o['n']}:a{o['arg']}"
     size = f"sz{o['sz']}" if o.get("sz") else f"w{o['w']}"
     s = f"{k}:{o['op']}:{clause}:{o['form']}:{size}:{o['lvl']}"
     if k == "cond":
